@@ -694,11 +694,12 @@ func (s *Store) rollback(ns walletdb.ReadWriteBucket, height int32) error {
 					return err
 				}
 
-				// If the credit was previously removed in the
-				// rollback, the credit amount is zero.  Only
-				// mark the previously spent credit as unspent
-				// if it still exists.
-				if amt == 0 {
+				// Only mark the previously spent credit as
+				// unspent if it still exists: it may have been
+				// removed earlier in this rollback.  The amount
+				// cannot be used to tell, since a credit may
+				// legitimately have a zero value.
+				if existsRawCredit(ns, credKey) == nil {
 					continue
 				}
 				unspentVal, err := fetchRawCreditUnspentValue(credKey)
